@@ -203,16 +203,25 @@ func (P *Program) VerifyFunction(fn *ssa.Function, cfg *RunCfg, opts VerifyOpts)
 	// (assert-then-assume).  Re-decide the later obligations without those assumptions, so
 	// that one property's failure cannot hide another's.
 	skip := map[int]bool{}
-	first := -1
-	for _, o := range final {
-		if o.Status != "discharged" && o.HypIdx >= 0 && o.HypIdx < len(ex.hyps) {
-			skip[o.HypIdx] = true
-			if first < 0 || o.HypIdx < first {
-				first = o.HypIdx
+	for iter := 0; iter < 5; iter++ {
+		// (iterated: an obligation that only held because of a retracted assumption now
+		// fails, and ITS assumption has to be retracted for the ones after it)
+		first := -1
+		grew := false
+		for _, o := range final {
+			if o.Status != "discharged" && o.Status != "skipped" && o.HypIdx >= 0 && o.HypIdx < len(ex.hyps) {
+				if !skip[o.HypIdx] {
+					skip[o.HypIdx] = true
+					grew = true
+				}
+				if first < 0 || o.HypIdx < first {
+					first = o.HypIdx
+				}
 			}
 		}
-	}
-	if len(skip) > 0 && len(skip) < maxFailures {
+		if !grew || len(skip) >= maxFailures {
+			break
+		}
 		var again []*Obligation
 		for _, o := range final {
 			if o.Status == "discharged" && o.Solver != "syntactic" && o.NHyps > first {
